@@ -111,11 +111,12 @@ connect_mx(struct ips *mx, const struct in6_addr *outip4, const struct in6_addr 
 				continue;
 				}
 			default:
-				/* something unexpected went wrong, assume that this is a local
-				 * problem that will eventually go away. */
-				daneinfo_free(d, tlsa);
-				write_status("Z4.4.2 error while waiting for the greeting of the remote server");
-				net_conn_shutdown(shutdown_abort);
+				/* Any other error: netget() has already given up this connection.
+				 * Try the next MX, too: if this is a local problem it will hit all
+				 * of them and the caller reports the temporary error then. */
+				if (socketd >= 0)
+					drop_connection();
+				continue;
 			}
 		}
 
